@@ -65,7 +65,7 @@ def user_alphabet(model, role):
 
 
 def tick_alphabet(model):
-    return [{'a': 'tick', 'dt': 2.0}, {'a': 'tick', 'dt': 11.5}]
+    return [{'a': 'tick', 'dt': 2.0}, {'a': 'tick', 'dt': 6.0}, {'a': 'tick', 'dt': 11.5}]
 
 
 def run_history(role, hist):
@@ -243,7 +243,7 @@ def prefixes(role):
     if role == 'acceptor':
         est = [p(c.RQ_SPEC), u(c.AC_SPEC)]
         return {
-            'Sta2': [], 'Sta3': [p(c.RQ_SPEC)], 'Sta6': est,
+            'Sta2': [], 'Sta2-waited': [{'a': 'tick', 'dt': 6.0}], 'Sta3': [p(c.RQ_SPEC)], 'Sta6': est,
             'Sta6-midmsg': est + [p(PART1)],
             'Sta7': est + [u(c.REL_RQ)], 'Sta8': est + [p(c.REL_RQ)],
             'Sta7-midmsg': est + [p(PART1), u(c.REL_RQ)],
@@ -251,6 +251,7 @@ def prefixes(role):
             'Sta12': est + [u(c.REL_RQ), p(c.REL_RQ), p(c.REL_RP)],
             'Sta13-rejected': [p(c.RQ_SPEC), u(c.RJ_SPEC)],
             'Sta13-released': est + [p(c.REL_RQ), u(c.REL_RP)],
+            'Sta13-waited': est + [u(c.ABORT_SU), {'a': 'tick', 'dt': 6.0}],
         }
     est = [u(c.RQ_SPEC), p(c.AC_SPEC)]
     return {
@@ -279,10 +280,10 @@ def alphabet_after(role, prefix):
 def run(ctx):
     warnings.simplefilter('ignore')
     depth = 4 if ctx.thorough else 2
-    ctx.rule = ('exhaustive DFS of all histories of up to %d further steps from each of 21 canonical prefixes that '
+    ctx.rule = ('exhaustive DFS of all histories of up to %d further steps from each of 23 canonical prefixes that '
                 'reach every protocol state (both roles), over the alphabet {7 PDU kinds, complete / first / '
                 'continuing / last P-DATA fragments, unknown PDU type, peer close, each arriving after quiescence '
-                'or back-to-back, 2 s and 11.5 s time advances, every user primitive legal in the model state incl. '
+                'or back-to-back, 2 s, 6 s and 11.5 s time advances, every user primitive legal in the model state incl. '
                 '1- and 3-fragment P-DATA requests}, plus Hypothesis random walks up to 30 steps with generated PDU '
                 'contents; every step compared with the executable PS3.8 model; non-trivial = the history reaches '
                 'Sta6 or exercises an abnormal action (AA-*, AR-8); distinct by (role, history)' % depth)
@@ -304,7 +305,7 @@ def run(ctx):
     parallel(ctx, run_dfs, jobs)
     ctx.label('dfs-jobs', len(jobs))
     if ctx.thorough:
-        parallel(ctx, shard_walks, [{'n': 1500} for _ in range(16)])
+        parallel(ctx, shard_walks, [{'n': 6000} for _ in range(16)])
     else:
         parallel(ctx, shard_walks, [{'n': 60} for _ in range(8)])
     cells = ctx.extra.get('cells', set())
